@@ -47,15 +47,20 @@ type Item struct {
 	Pre  string    `json:"prefix,omitempty"`
 	Top  string    `json:"topic,omitempty"`
 	// oracle bookkeeping
-	X       int                 `json:"x,omitempty"`          // session: original index of X
-	Denied  bool                `json:"denied,omitempty"`     // session: the booking was denied first
-	DenBid  string              `json:"denied_bid,omitempty"` // session: which booking id was denied
-	Codes0  int                 `json:"codes0,omitempty"`     // session: code store size before / after
-	Codes1  int                 `json:"codes1,omitempty"`
-	Inbox   map[string][]string `json:"inbox,omitempty"`   // relay: messages received per User-Agent number
-	Attempt map[string]string   `json:"attempt,omitempty"` // relay: UA -> plan label
-	Note    map[string]string   `json:"note,omitempty"`    // relay / binary: UA -> booking id of the connection (for waiting after a deny)
-	Disc    bool                `json:"discarded,omitempty"`
+	X          int                 `json:"x,omitempty"`          // session: original index of X
+	Denied     bool                `json:"denied,omitempty"`     // session: the booking was denied first
+	DenBid     string              `json:"denied_bid,omitempty"` // session: which booking id was denied
+	Codes0     int                 `json:"codes0,omitempty"`     // session: code store size before / after
+	Codes1     int                 `json:"codes1,omitempty"`
+	Inbox      map[string][]string `json:"inbox,omitempty"`   // relay: messages received per User-Agent number
+	Attempt    map[string]string   `json:"attempt,omitempty"` // relay: UA -> plan label
+	Note       map[string]string   `json:"note,omitempty"`    // relay / binary: UA -> booking id of the connection (for waiting after a deny)
+	Disc       bool                `json:"discarded,omitempty"`
+	SecretCfg  string              `json:"secret_cfg,omitempty"`  // session: the instance was configured with this secret
+	Outlived   []int               `json:"outlived,omitempty"`    // expiry: attempts still listed after their token's expiry + slack
+	OpenSocket []int               `json:"open_socket,omitempty"` // expiry: unlisted but the relay had not closed the socket
+	ExpAt      int64               `json:"exp_at,omitempty"`      // expiry: the tokens' exp
+	env        *acc.Env
 }
 
 func (it Item) coq() string {
@@ -170,12 +175,113 @@ func oracleSession(it Item, idx int, res *lib.Result) {
 		if it.Codes1 != it.Codes0 {
 			bad("refusal-added-code", fmt.Sprintf("status %d but the code store went from %d to %d entries", o.Status, it.Codes0, it.Codes1))
 		}
-		if !sameIds(c.Outs[it.X-1], c.Outs[it.X+1]) {
+		if c.Outs[it.X-1].Body != "ids" || c.Outs[it.X+1].Body != "ids" {
+			bad("baseline-not-served", fmt.Sprintf("the genuine admin's GET /bids/allow around the request was answered %d / %d", c.Outs[it.X-1].Status, c.Outs[it.X+1].Status))
+		} else if !sameIds(c.Outs[it.X-1], c.Outs[it.X+1]) {
 			bad("refusal-changed-store", fmt.Sprintf("status %d but the allow list went from %v to %v", o.Status, c.Outs[it.X-1].Ids, c.Outs[it.X+1].Ids))
 		}
 		if o.Body == "uri" {
 			bad("code-for-bad-token", fmt.Sprintf("error status %d with a uri in the body", o.Status))
 		}
+	}
+}
+
+// ---------------------------------------------------------------- secret configurations
+
+func secretConfigs() []string {
+	return []string{"newsecret,", ",oldsecret", "first,,third", "alpha,beta", " padded secret ", "tab\tand space ,x",
+		strings.Repeat("long-secret-0123456789", 200), "s\u00e9cret-\u043a\u043b\u044e\u0447-\u79d8\u5bc6", "plain-comma-free"}
+}
+
+type keyChoice struct {
+	label string
+	key   string
+}
+
+// signingKeys: the exact configured string and the near misses a lenient reading of it could accept.
+func signingKeys(sec string) []keyChoice {
+	out := []keyChoice{{"exact", sec}, {"empty-key", ""}, {"trimmed", strings.TrimSpace(sec)}, {"prefix", sec[:len(sec)/2]},
+		{"without-commas", strings.ReplaceAll(sec, ",", "")}, {"plus-comma", sec + ","}}
+	for i, p := range strings.Split(sec, ",") {
+		out = append(out, keyChoice{"part-" + strconv.Itoa(i), p}, keyChoice{"part-trimmed-" + strconv.Itoa(i), strings.TrimSpace(p)})
+	}
+	// one case per distinct key
+	seen := map[string]bool{}
+	var uniq []keyChoice
+	for _, k := range out {
+		if !seen[k.key] {
+			seen[k.key] = true
+			uniq = append(uniq, k)
+		}
+	}
+	return uniq
+}
+
+func genSecretCase(r *lib.Rng, n int, e *acc.Env, k keyChoice) Item {
+	now := int64(1600000000 + r.Intn(200000000))
+	name := "c01-" + strconv.Itoa(n)
+	topic := "T" + name
+	auth := acc.SessionBearer(e.Cfg.Host, now, topic, "bk-"+name, []string{"read", "write"})
+	key := k.key
+	auth.SignKey, auth.KeyExact = &key, k.key == e.Secret
+	auth.Label = "signing-key:" + k.label
+	x := acc.Req{Route: "session", ID: topic, Auth: auth, Label: "secret-config"}
+	x.Method, x.Target = acc.TargetFor("session", topic, nil, nil)
+	adm := acc.ScopeBearer(e.Cfg.Host, now, []string{"relay:admin"})
+	la := acc.Req{Route: "listallow", Method: "GET", Target: "/bids/allow", Auth: adm}
+	ops := []acc.Op{{K: "req", Req: &la}, {K: "req", Req: &x}, {K: "req", Req: &la}}
+	return Item{Kind: "session", X: 1, SecretCfg: e.Secret, env: e,
+		H: &acc.Case{Name: name, T0: now, Ops: ops, Cfg: e.Cfg, Mode: "mock"}}
+}
+
+// ---------------------------------------------------------------- expiry binding
+
+// genExpiry: three tokens with the same exp a few seconds ahead - one fresh (nbf = now-1), two whose validity
+// began long ago (minutes, days); all join; after exp + 2 s the relay must have ended all three by itself.
+func genExpiry(e *acc.Env, name string, ages []int64) Item {
+	now := time.Now()
+	exp := now.Unix() + 3
+	topic := "X" + name
+	var ops []acc.Op
+	for i, age := range ages {
+		b := acc.SessionBearer(e.Cfg.Host, now.Unix(), topic, "bx"+strconv.Itoa(i)+"-"+name, []string{"read", "write"})
+		b.Claims["iat"], b.Claims["nbf"], b.Claims["exp"] = now.Unix()-age-1, now.Unix()-age, exp
+		b.Label = "valid-since:" + strconv.FormatInt(age, 10) + "s"
+		q := acc.Req{Route: "session", ID: topic, Auth: b, Label: "expiry"}
+		q.Method, q.Target = acc.TargetFor("session", topic, nil, nil)
+		ops = append(ops, acc.Op{K: "req", Req: &q})
+	}
+	it := Item{Kind: "expiry", Attempt: map[string]string{}, ExpAt: exp}
+	for i, age := range ages {
+		ua := i + 1
+		label := "valid-since:" + strconv.FormatInt(age, 10) + "s"
+		ops = append(ops, acc.Op{K: "ws", Ws: &acc.Ws{Path: "/session/" + topic, Decoded: "/session/" + topic, Code: acc.CodeRef{Kind: "op", Op: i}, UA: ua, Label: label}})
+		it.Attempt[strconv.Itoa(ua)] = label
+	}
+	st := acc.Req{Route: "status", Method: "GET", Target: "/status", Auth: e.ObserverBearer("relay:stats"), Label: "stats"}
+	ops = append(ops, acc.Op{K: "req", Req: &st})
+	ops = append(ops, acc.Op{K: "wait", T: exp*1000 + 2000})
+	for i := range ages {
+		ops = append(ops, acc.Op{K: "serverclose", UA: i + 1})
+	}
+	ops = append(ops, acc.Op{K: "req", Req: &st})
+	it.H = &acc.Case{Name: name, T0: now.Unix(), Ops: ops, Cfg: e.Cfg, Mode: "real"}
+	return it
+}
+
+func oracleExpiry(it Item, idx int, res *lib.Result) {
+	oracleRelay(it, idx, res)
+	bad := func(ua int, what string) {
+		label := it.Attempt[strconv.Itoa(ua)]
+		res.Violate(lib.Violation{Clause: "connection-outlived-token", Case: idx, Key: "connection-outlived-token:" + label, Replay: it,
+			Detail: fmt.Sprintf("a connection joined with a token (%s) whose exp was %d %s at %d ms past that expiry (a token minted at connect time with the same exp is the control, User-Agent #1)",
+				label, it.ExpAt, what, time.Now().UnixMilli()-it.ExpAt*1000)})
+	}
+	for _, ua := range it.Outlived {
+		bad(ua, "is still listed as connected")
+	}
+	for _, ua := range it.OpenSocket {
+		bad(ua, "is no longer listed but the relay has not closed its socket")
 	}
 }
 
@@ -316,14 +422,24 @@ func hasScope(l []string, x string) bool {
 
 // inbox collects what each connection of a case receives.
 type inbox struct {
-	mu  sync.Mutex
-	got map[int][]string
+	mu     sync.Mutex
+	got    map[int][]string
+	closed map[int]bool
+}
+
+func (b *inbox) isClosed(ua int) bool {
+	b.mu.Lock()
+	defer b.mu.Unlock()
+	return b.closed[ua]
 }
 
 func (b *inbox) reader(ua int, c *websocket.Conn) {
 	for {
 		_, data, err := c.ReadMessage()
 		if err != nil {
+			b.mu.Lock()
+			b.closed[ua] = true // the relay ended the connection (the harness closes its side only at the end)
+			b.mu.Unlock()
 			return
 		}
 		b.mu.Lock()
@@ -350,7 +466,8 @@ func runRelay(it *Item, e *acc.Env, try int) bool {
 		n, _ := strconv.Atoi(ua)
 		rn.NoteBooking(n, bk)
 	}
-	box := &inbox{got: map[int][]string{}}
+	box := &inbox{got: map[int][]string{}, closed: map[int]bool{}}
+	rn.SocketClosed = box.isClosed
 	started := map[int]bool{}
 	rn.AfterOp = func(orig int, o *acc.Op, out *acc.Out) {
 		if o.K != "ws" {
@@ -391,6 +508,7 @@ func runRelay(it *Item, e *acc.Env, try int) bool {
 			c.Outs[i].Leaked = c.Outs[i].Leaked || box.has(1, "cand-"+strconv.Itoa(ua)) || box.has(2, "cand-"+strconv.Itoa(ua))
 		}
 	}
+	it.Outlived, it.OpenSocket = rn.Outlived, rn.OpenSocket
 	rn.Close()
 	box.mu.Lock()
 	it.Inbox = map[string][]string{}
@@ -564,11 +682,20 @@ func work(a lib.Args) {
 				}
 				it.H.Ops = ops
 				it.H.Rebase(real)
+			} else if it.SecretCfg != "" {
+				it.env = acc.StartMockAPISecret(it.H.Cfg.AE, it.SecretCfg)
+				it.H.Rebase(it.env)
 			} else {
 				it.H.Rebase(mocks[it.H.Cfg.AE])
 			}
 		}
 		items = []Item{it}
+		if it.Kind == "expiry" { // its dates cannot be replayed: a fresh one of the same shape is run instead
+			acc.UseWallClock(true)
+			fresh := genExpiry(real, "c01-expreplay", []int64{1, 600, 172800})
+			runRelay(&fresh, real, 0)
+			items = []Item{fresh}
+		}
 	} else {
 		n := 0
 		for i := 0; i < a.Pick(400, 20000); i++ {
@@ -591,6 +718,17 @@ func work(a lib.Args) {
 			it.X, it.Denied, it.DenBid = 1, false, ""
 			items = append(items, it)
 			n++
+		}
+		// the configuration dimension of the secret: instances whose secret contains commas, leading / trailing
+		// commas, spaces, is very long or not ASCII; bearers signed with the exact string (good), with each
+		// comma-separated part, the trimmed string, the EMPTY key, a prefix
+		for _, sec := range secretConfigs() {
+			e := acc.StartMockAPISecret(len(items)%2 == 0, sec)
+			for _, k := range signingKeys(sec) {
+				it := genSecretCase(rng.Fork(), n, e, k)
+				items = append(items, it)
+				n++
+			}
 		}
 		for i := 0; i < a.Pick(45, 600); i++ {
 			items = append(items, genRelay(rng.Fork(), n, real, -1))
@@ -651,6 +789,9 @@ func work(a lib.Args) {
 			continue
 		}
 		e := mocks[it.H.Cfg.AE]
+		if it.env != nil {
+			e = it.env
+		}
 		e.ResetStores()
 		acc.Progress(a.Out, it)
 		it.Codes0 = e.CS.GetCodeCount()
@@ -695,6 +836,7 @@ func work(a lib.Args) {
 	}
 	var wg sync.WaitGroup
 	var mu sync.Mutex
+	var expiryItems []Item
 	retried := 0
 	sem := make(chan struct{}, 8)
 	for i := range items {
@@ -720,7 +862,28 @@ func work(a lib.Args) {
 			it.Disc = true
 		}(it)
 	}
+	if a.Replay == "" {
+		// expiry binding on the whole relay, beside the relay stream (each takes ~5 s of waiting)
+		for k, ages := range [][]int64{{1, 600, 172800}, {1, 75, 3600}} {
+			wg.Add(1)
+			go func(k int, ages []int64) {
+				defer wg.Done()
+				for try := 0; try < 3; try++ {
+					it := genExpiry(real, "c01-exp"+strconv.Itoa(k)+"t"+strconv.Itoa(try), ages)
+					ok := runRelay(&it, real, try)
+					if ok || try == 2 {
+						it.Disc = !ok
+						mu.Lock()
+						expiryItems = append(expiryItems, it)
+						mu.Unlock()
+						return
+					}
+				}
+			}(k, ages)
+		}
+	}
 	wg.Wait()
+	items = append(items, expiryItems...)
 	// path stream
 	for i := range items {
 		it := &items[i]
@@ -751,6 +914,7 @@ func work(a lib.Args) {
 			}
 			binResults[len(items)] = br
 			items = append(items, br.item)
+			items = append(items, br.extra...)
 		}
 	}
 	var coq []string
@@ -819,6 +983,17 @@ func work(a lib.Args) {
 				}
 				if o.K == "req" {
 					res.Count("binary-req:" + o.Req.Route + ":" + o.Req.Auth.Label + "=" + strconv.Itoa(it.H.Outs[k].Status))
+				}
+			}
+		case "expiry":
+			oracleExpiry(it, kept, res)
+			res.Count("expiry:cases")
+			for k, o := range it.H.Ops {
+				if o.K == "ws" {
+					res.Count("expiry-join:" + it.H.Outs[k].Ws)
+				}
+				if o.K == "leave" {
+					res.Count("expiry:ended-by-relay")
 				}
 			}
 		case "relay":
